@@ -43,19 +43,23 @@ NAMED = {
 }
 
 
-def conf(universe, nlocs, wrap, depth, relate_all=False, types=("PRIMARY",), same_dep=False):
+def conf(universe, nlocs, wrap, depth, relate_all=False, types=("PRIMARY",), same_dep=False, wrap2=False, family="none"):
+    """wrap: L3 wraps L2 (mount /a -> /b); wrap2: L2 wraps L1 (mount /b/a -> /b/b), with wrap a location wrapped twice;
+    family: prefix of operations every behaviour starts with ("three": one file at three paths on three locations)."""
     return {"universe": universe, "nlocs": nlocs, "wrap": wrap, "depth": depth, "relate_all": relate_all,
-            "types": list(types), "same_dep": same_dep}
+            "types": list(types), "same_dep": same_dep, "wrap2": wrap2, "family": family}
 
 
 def conf_name(c):
-    return "%s/L%d%s%s/%s/d%d" % (c["universe"], c["nlocs"], "w" if c["wrap"] else "", "+anc" if c["relate_all"] else "",
-                                "+".join(t[0] for t in c["types"]), c["depth"])
+    return "%s%s/L%d%s%s%s/%s/d%d" % (c["universe"], "" if c.get("family", "none") == "none" else "~" + c["family"],
+                                    c["nlocs"], "w" if c["wrap"] else "", "W" if c.get("wrap2") else "",
+                                    "+anc" if c["relate_all"] else "", "+".join(t[0] for t in c["types"]), c["depth"])
 
 
 def cfg_text(c, init="Init", nxt="GenNext", invariants=("TypeOK", "MatchModuloKnown"), bounded=True):
-    t = ('CONSTANTS Universe = "%s"  NLocs = %d  Wrap = %s  MaxDepth = %d  RelateAll = %s\n'
-         % (c["universe"], c["nlocs"], "TRUE" if c["wrap"] else "FALSE", c["depth"], "TRUE" if c["relate_all"] else "FALSE"))
+    tf = lambda b: "TRUE" if b else "FALSE"
+    t = ('CONSTANTS Universe = "%s"  NLocs = %d  Wrap = %s  Wrap2 = %s  Family = "%s"  MaxDepth = %d  RelateAll = %s\n'
+         % (c["universe"], c["nlocs"], tf(c["wrap"]), tf(c.get("wrap2")), c.get("family", "none"), c["depth"], tf(c["relate_all"])))
     t += "CONSTANTS Types = {%s}\n" % ", ".join('"%s"' % x for x in c["types"])
     t += "CONSTANTS PathSeq <- MCPathSeq  LocSeq <- MCLocSeq  WrapsOf <- MCWrapsOf  MountFrom <- MCMountFrom  MountTo <- MCMountTo\n"
     t += "INIT %s\nNEXT %s\n" % (init, nxt)
@@ -71,7 +75,42 @@ def cfg_text(c, init="Init", nxt="GenNext", invariants=("TypeOK", "MatchModuloKn
 # ------------------------------------------------------------------------------------------------
 
 def _signature(opk, kind, cause):
+    if cause == "closure":
+        return "%s:%s:relation-closure" % (opk, kind)
     return NAMED.get((opk, kind, cause)) or "%s:%s:%s" % (opk, kind, CAUSE.get(cause, "unpredicted"))
+
+
+MOUNTS = {"L3": ((A,), (B,), "L2", "wrap"), "L2": ((B, A), (B, B), "L1", "wrap2")}
+
+
+def inner_chain(c, l, p):
+    """(location, path) of the inner registrations of p on l (MC_DataManager: MCWrapsOf / MCMountFrom / MCMountTo)."""
+    out, p = [], tuple(p)
+    while l in MOUNTS and c.get(MOUNTS[l][3]) and p[:len(MOUNTS[l][0])] == MOUNTS[l][0]:
+        p, l = MOUNTS[l][1] + p[len(MOUNTS[l][0]):], MOUNTS[l][2]
+        out.append((l, p))
+    return out
+
+
+def direct_cells(c, hist):
+    """Cells (path, location) that a relation makes available by its two ends alone: (src path, dst location) and
+    (dst path, src location) of every declared relation and of every (outermost, inner) pair of a wrapped registration.
+    A related cell that must be available and is not among them is demanded by the CLOSURE of the relations (the new copy
+    is a copy of everything the source was already related to: fan-out, chain, location wrapped more than once)."""
+    cells, last = set(), None
+    for op in hist:
+        if op[0] == "reg":
+            last = (tuple(op[2]), op[1])
+            for (l, p) in inner_chain(c, op[1], op[2]):
+                cells |= {(last[0], l), (p, last[1])}
+        elif op[0] == "inv":
+            last = None
+        else:
+            ends = [last if d[0] == "last" else (tuple(d[1]), d[2]) for d in (op[1], op[2])]
+            if None not in ends:
+                (ps, ls), (pd, ld) = ends
+                cells |= {(ps, ld), (pd, ls)}
+    return cells
 
 
 def judge(ctx, c, hist, line, rp, exc, deep=True):
@@ -94,6 +133,7 @@ def judge(ctx, c, hist, line, rp, exc, deep=True):
     if real != line["a"]:
         ctx.count("asis_divergent_states")
     bad = {}
+    direct = None
     for i, (p, l) in enumerate(cells):
         e = D.EXP[line["e"][i]]
         if e in ("reg", "rel") and not real[i]:
@@ -105,6 +145,10 @@ def judge(ctx, c, hist, line, rp, exc, deep=True):
                 ctx.count("model_violation_not_on_real")
             continue
         cause = line["c"][i] if (line["a"][i] == real[i]) else 0
+        if cause == 0 and kind == "missing" and e == "rel":
+            direct = direct_cells(c, hist) if direct is None else direct
+            if (tuple(p), l) not in direct:
+                cause = "closure"
         bad.setdefault(_signature(opk, kind, cause), []).append([D.pstr(p), l, e])
     for sig, where in bad.items():
         good = False
@@ -151,7 +195,7 @@ def _fmt(op):
 def replay_hist(ctx, sf, c, hist, line, deep=True, same_dep=False):
     """One implementation test: the operation sequence from scratch, judged after its last operation."""
     from vh.sut import data_dm as D
-    rp = D.Replayer(sf, UNIV[c["universe"]], D.make_locations(c["nlocs"], c["wrap"], same_dep))
+    rp = D.Replayer(sf, UNIV[c["universe"]], D.make_locations(c["nlocs"], c["wrap"], same_dep, c.get("wrap2", False)))
     exc = None
     for k, op in enumerate(hist):
         try:
@@ -211,7 +255,7 @@ def _random_traces(rng, c, n, length):
     locs = ["L1", "L2", "L3"][:c["nlocs"]]
     out = []
     for _ in range(n):
-        tr, regd = [], []
+        tr, regd, rels = [], [], []
         for _ in range(rng.randint(3, length)):
             x = rng.random()
             if not regd or x < 0.42:
@@ -229,7 +273,17 @@ def _random_traces(rng, c, n, length):
                         return ["last"]
                     p, l = rng.choice(regd)
                     return ["cell", list(p), l]
-                tr.append(["rel", d(), d()])
+                y = rng.random()
+                if rels and y < 0.45:
+                    # relations that share an end with an earlier one: fan-out (same source, another destination), chain
+                    # (the earlier destination becomes the source), fan-in (the earlier source becomes the destination)
+                    s0, d0 = rng.choice(rels)
+                    rel = [s0, d()] if y < 0.2 else [d0, d()] if y < 0.35 else [d(), s0]
+                else:
+                    rel = [d(), d()]
+                # a held handle is only meaningful where it is used: remember the ends as cells
+                rels.append(tuple(["cell", list(regd[-1][0]), regd[-1][1]] if e == ["last"] else e for e in rel))
+                tr.append(["rel", rel[0], rel[1]])
             else:
                 p, l = rng.choice(regd)
                 p = p[:rng.randint(0, len(p))]
@@ -255,7 +309,7 @@ def _trace_config(ctx, sf, c, n, length, label):
     ctx.require(len(by) == len(traces), "%s: %d of %d traces answered" % (name, len(by), len(traces)))
     done = steps = 0
     for t, tr in enumerate(traces, 1):
-        rp = D.Replayer(sf, UNIV[c["universe"]], D.make_locations(c["nlocs"], c["wrap"], c.get("same_dep", False)))
+        rp = D.Replayer(sf, UNIV[c["universe"]], D.make_locations(c["nlocs"], c["wrap"], c.get("same_dep", False), c.get("wrap2", False)))
         hist = []
         for k, op in enumerate(tr, 1):
             line = by[t].get(k)
@@ -427,11 +481,14 @@ async def _main(ctx):
     from vh.sut import context as C
     sf = C.build()
     try:
+        both = ("PRIMARY", "SYMLINK")
         edge = ctx.pick(
-            [conf("Flat", 1, False, 5), conf("T2", 3, True, 2, types=("PRIMARY", "SYMLINK"))],
+            [conf("Flat", 1, False, 5), conf("T2", 3, True, 2, types=both, wrap2=True),
+             conf("T2", 3, False, 5, family="three")],
             [conf("Flat", 2, False, 5), conf("Flat", 1, False, 6, relate_all=True), conf("Chain", 2, False, 4),
-             conf("Fork", 2, False, 4), conf("T2", 3, True, 3, types=("PRIMARY", "SYMLINK")),
-             conf("T3", 3, True, 2, types=("PRIMARY", "SYMLINK"))])
+             conf("Fork", 2, False, 4), conf("T2", 3, True, 3, types=both),
+             conf("T3", 3, True, 2, types=both), conf("T3", 3, True, 2, types=both, wrap2=True),
+             conf("T2", 3, False, 6, family="three")])
         for c in edge:
             _edge_config(ctx, sf, c, ctx.pick(7, 3))
         for c in ctx.pick([], [conf("Chain", 2, False, 5), conf("Flat", 1, False, 7, relate_all=True)]):
